@@ -18,7 +18,8 @@ From SV Require Import Proofs.TcpProgressBase Proofs.TcpProgressFrame Proofs.Tcp
   Proofs.TcpProgressCl1 Proofs.TcpProgressCl2 Proofs.TcpProgressCl3 Proofs.TcpProgressCl4 Proofs.TcpProgressCl5
   Proofs.TcpProgressCl6 Proofs.TcpProgressCl7 Proofs.TcpProgressCl8 Proofs.TcpProgressCl9
   Proofs.TcpProgressCl10 Proofs.TcpProgressCl11 Proofs.TcpProgressCl12 Proofs.TcpProgressCl13 Proofs.TcpProgressCl14 Proofs.TcpProgressCl15
-  Proofs.TcpProgressHsRtx Proofs.TcpProgressRtxWitness.
+  Proofs.TcpProgressHsRtx Proofs.TcpProgressRtxWitness Proofs.TcpProgressHsSrv1 Proofs.TcpProgressHsSrv2
+  Proofs.TcpProgressHsSrvWitness.
 
 Definition qcf_check (ca cb : ep_config) (pre evsD evsQ evs1 evs2 : list net_event) (Dt Da Dack : Z) (n : nat) : bool :=
   match net_init ca cb with
@@ -332,6 +333,170 @@ Theorem handshake_quiesce_close_after_fault_prefix_applies :
 Proof.
   destruct zcfg_good as (Ga & Gb).
   apply (hqc_package zcfg_a zcfg_b hqc_pre hqc_evsH hqc_evsQ hqc_evs1 hqc_evs2 5000 5000 10000 0 Ga Gb); try exact hqc_check_ok.
+  - split; reflexivity.
+  - split; reflexivity.
+  - cbn. lia.
+  - cbn. exact I.
+Qed.
+
+(* ---------------------------------------------------------------------------------------- *)
+(* the same from a prefix that lost the client's ACK                                          *)
+(* ---------------------------------------------------------------------------------------- *)
+Definition sqc_check (ca cb : ep_config) (pre evsH evsQ evs1 evs2 : list net_event) (Dt Da Dack : Z) (n : nat) : bool :=
+  match net_init ca cb with
+  | Ok st0 =>
+      net_started st0 && forallb script_evb pre &&
+      match net_run st0 pre with
+      | Ok st =>
+          let all := evsH ++ evsQ ++ NClose SA :: evs1 ++ NClose SB :: evs2 in
+          tcp_state_eqb (s_state (net_sock st SA)) Established && tcp_state_eqb (s_state (net_sock st SB)) SynReceived &&
+          freshb (cx_isn (ep_cx (n_a st0))) st &&
+          opts_okb st &&
+          fair_runb Dt Da (fa_init Dt Da st) st all && once_runb Dt Da (fa_init Dt Da st) st all &&
+          (0 <=? Dt) && (0 <=? Da) && (0 <=? Dack) && (2 * Dt <? tcp_RTTE_MIN_RTO * 1000) &&
+          forallb (app_evb SA) evsH && run_zregimeb st evsH && forallb qevb evsQ && forallb cl_evb evs1 &&
+          match net_run st evsH with
+          | Ok stD =>
+              (Z.max (net_now st SA) (cA st) + max_rto_us + 2 * Dt <? net_now stD SA) &&
+              run_qregimeb stD evsQ &&
+              ((l_len (ep_written (net_get stD SA)) - una_off (net_get stD SA)) +
+               (l_len (ep_written (net_get stD SA)) - read_off (net_get stD SB)) <=? Z.of_nat n) &&
+              match net_run stD evsQ with
+              | Ok stQ =>
+                  (l_len (ep_written (net_get stQ SA)) <? 2 ^ 30) && (l_len (ep_written (net_get stQ SB)) <? 2 ^ 30) &&
+                  (net_now stD SA + Z.of_nat n * Wz Dt Da + 2 * Dt + Dack <? net_now stQ SA) &&
+                  match net_step stQ (NClose SA) with
+                  | Ok stC =>
+                      match net_run stC evs1 with
+                      | Ok st_m =>
+                          (net_now stQ SA + 2 * Dt <? net_now st_m SA) &&
+                          match net_run st_m (NClose SB :: evs2) with
+                          | Ok st' => net_now st_m SA + 3 * Dt + tcp_CLOSE_DELAY <? net_now st' SA
+                          | _ => false
+                          end
+                      | _ => false
+                      end
+                  | _ => false
+                  end
+              | _ => false
+              end
+          | _ => false
+          end
+      | _ => false
+      end
+  | _ => false
+  end.
+
+Lemma sqc_package ca cb pre evsH evsQ evs1 evs2 Dt Da Dack n :
+  cfg_good ca -> cfg_good cb -> cfg_plain ca -> cfg_plain cb -> c_addr ca <> 0 ->
+  match c_ack_delay cb with Some d => 0 <= d <= Dack | None => True end ->
+  sqc_check ca cb pre evsH evsQ evs1 evs2 Dt Da Dack n = true ->
+  exists st0 st stD stQ st_m st',
+    start_ok Dack ca cb st0 /\ net_run st0 pre = Ok st /\
+    s_state (net_sock st SA) = Established /\ s_state (net_sock st SB) = SynReceived /\
+    reliable_schedule Dt Da st (evsH ++ evsQ ++ NClose SA :: evs1 ++ NClose SB :: evs2) /\
+    net_run st evsH = Ok stD /\
+    net_run stD evsQ = Ok stQ /\ run_all qregime stD evsQ /\
+    net_run stQ (NClose SA :: evs1) = Ok st_m /\ net_run st_m (NClose SB :: evs2) = Ok st' /\
+    (exists h1 h2 sth,
+       evsH = h1 ++ h2 /\ net_run st h1 = Ok sth /\ net_run sth h2 = Ok stD /\
+       (forall z, s_state (net_sock sth z) = Established) /\
+       net_now sth SA <= Z.max (net_now st SA) (cA st) + max_rto_us + 2 * Dt) /\
+    (exists p1 p2 sta,
+       evsQ = p1 ++ p2 /\ net_run stD p1 = Ok sta /\ net_run sta p2 = Ok stQ /\
+       una_off (net_get sta SA) = l_len (ep_written (net_get stD SA)) /\
+       read_off (net_get sta SB) = l_len (ep_written (net_get stD SA))) /\
+    (exists pre2 post st_c,
+       evs2 = pre2 ++ post /\ net_run st_m (NClose SB :: pre2) = Ok st_c /\ net_run st_c post = Ok st' /\
+       both_closed st_c).
+Proof.
+  intros Ga Gb Pa Pb Haddr Hdel H. unfold sqc_check in H.
+  destruct (net_init ca cb) as [st0|e|] eqn:Ei; try discriminate.
+  apply andb_true_iff in H. destruct H as (H & Hrest).
+  apply andb_true_iff in H. destruct H as (Hst & Hsp).
+  destruct (net_run st0 pre) as [st|e|] eqn:Ep; try discriminate. cbv zeta in Hrest.
+  apply andb_true_iff in Hrest. destruct Hrest as (H & Hrest).
+  apply andb_true_iff in H. destruct H as (H & Hcl).
+  apply andb_true_iff in H. destruct H as (H & Hq).
+  apply andb_true_iff in H. destruct H as (H & Hzr).
+  apply andb_true_iff in H. destruct H as (H & Hap).
+  apply andb_true_iff in H. destruct H as (H & Hd4).
+  apply andb_true_iff in H. destruct H as (H & Hd3).
+  apply andb_true_iff in H. destruct H as (H & Hd2).
+  apply andb_true_iff in H. destruct H as (H & Hd1).
+  apply andb_true_iff in H. destruct H as (H & Hon).
+  apply andb_true_iff in H. destruct H as (H & Hf).
+  apply andb_true_iff in H. destruct H as (H & Ho).
+  apply andb_true_iff in H. destruct H as (H & Hfr).
+  apply andb_true_iff in H. destruct H as (Hsa & Hsb).
+  destruct (net_run st evsH) as [stD|e|] eqn:ED; try discriminate.
+  apply andb_true_iff in Hrest. destruct Hrest as (HD & Hrest).
+  apply andb_true_iff in HD. destruct HD as (HD & HnD). apply andb_true_iff in HD. destruct HD as (HclkH & HqQ).
+  destruct (net_run stD evsQ) as [stQ|e|] eqn:EQ; try discriminate.
+  apply andb_true_iff in Hrest. destruct Hrest as (HQ & Hrest).
+  apply andb_true_iff in HQ. destruct HQ as (HQ & HclkQ). apply andb_true_iff in HQ. destruct HQ as (HszA & HszB).
+  destruct (net_step stQ (NClose SA)) as [stC|e|] eqn:EC; try discriminate.
+  destruct (net_run stC evs1) as [st_m|e|] eqn:E1; try discriminate.
+  apply andb_true_iff in Hrest. destruct Hrest as (Hc1 & Hrest).
+  destruct (net_run st_m (NClose SB :: evs2)) as [st'|e|] eqn:E2; try discriminate.
+  apply Z.leb_le in Hd1, Hd2, Hd3, HnD. apply Z.ltb_lt in Hd4, HclkH, HszA, HszB, HclkQ, Hc1, Hrest.
+  apply tcp_state_eqb_eq in Hsa, Hsb.
+  assert (Hstart : start_ok Dack ca cb st0) by (unfold start_ok; auto 10).
+  assert (Hrel : reliable_schedule Dt Da st (evsH ++ evsQ ++ NClose SA :: evs1 ++ NClose SB :: evs2)).
+  { split; [|exact (proj1 (once_runb_iff _ _ _ _ _) Hon)].
+    split; [lia|]. split; [lia|]. split; [apply opts_okb_sound; assumption | apply fair_runb_sound; assumption]. }
+  pose proof (run_qregimeb_sound evsQ stD HqQ) as HqQ'.
+  assert (HwinH : run_all syn_win_open st evsH).
+  { apply (run_all_impl (zregime Dack)); [intros s (X0 & _); exact X0|]. exact (run_zregimeb_sound Dack evsH st Hzr). }
+  assert (Hsz : forall z, l_len (ep_written (net_get stQ z)) < 2 ^ 30) by (intros z; destruct z; cbn [net_get] in *; lia).
+  destruct (server_quiesce_close_after_fault_prefix Dt Da Dack ca cb st0 n pre st evsH evsQ evs1 evs2 stD stQ stC st_m st'
+              Hstart Hd4 Hd3 Ep (script_evb_sound _ Hsp) Hsa Hsb (freshb_sound _ _ Hfr) Hrel (app_evb_sound SA _ Hap) ED HwinH HclkH (qevb_sound _ Hq) EQ Hsz HqQ'
+              HnD HclkQ EC (cl_evb_sound _ Hcl) E1 Hc1 E2 Hrest) as (HH & HA & HC).
+  exists st0, st, stD, stQ, st_m, st'. split; [exact Hstart|]. split; [exact Ep|]. split; [exact Hsa|]. split; [exact Hsb|]. split; [exact Hrel|].
+  split; [exact ED|]. split; [exact EQ|]. split; [exact HqQ'|].
+  split; [cbn [net_run]; rewrite EC; cbn [obind]; exact E1|]. split; [exact E2|]. split; [exact HH|]. split; [exact HA | exact HC].
+Qed.
+
+(* THE FAULT PREFIX: A's ACK of the SYN|ACK is LOST (A ESTABLISHED, B SYN-RECEIVED).  THE RELIABLE PART: B's
+   retransmission timer fires after 1 s, the SYN|ACK again, A's challenge ACK, B ESTABLISHED, 12 octets through the
+   8-octet window that closes in the middle, all read, the clock runs on; quiet; A closes, B closes *)
+Definition sqc_pre : list net_event :=
+  [NPoll SA true; NDeliver SB 0; NPoll SB true; NDeliver SA 0; NPoll SA true; NDrop SB 1; NDrop SB 0; NDrop SA 0].
+Definition sqc_evsH : list net_event :=
+  [NTick 1000000; NPoll SB true; NDeliver SA 0; NDeliver SB 0;
+   NSend SA [1;2;3;4;5;6;7;8;9;10;11;12]; NPoll SA true; NDeliver SB 1; NPoll SB true; NDeliver SA 1; NRecv SB 8;
+   NPoll SB true; NDeliver SA 2; NPoll SA true; NDeliver SB 2; NPoll SB true; NDeliver SA 3; NRecv SB 8; NPoll SB true;
+   NDeliver SA 4; NPoll SA true; NTick 100000000].
+Definition sqc_evsQ : list net_event := [NTick 30000].
+Definition sqc_evs1 : list net_event := [NPoll SA true; NDeliver SB 3; NPoll SB true; NDeliver SA 5; NTick 20000].
+Definition sqc_evs2 : list net_event :=
+  [NPoll SB true; NDeliver SA 6; NPoll SA true; NDeliver SB 4; NTick 10000000; NPoll SA true; NTick 100000].
+
+Lemma sqc_check_ok : sqc_check zcfg_a zcfg_b sqc_pre sqc_evsH sqc_evsQ sqc_evs1 sqc_evs2 5000 5000 10000 0 = true.
+Proof. vm_compute. reflexivity. Qed.
+
+Theorem server_quiesce_close_after_fault_prefix_applies :
+  exists st0 st stD stQ st_m st',
+    start_ok 10000 zcfg_a zcfg_b st0 /\ net_run st0 sqc_pre = Ok st /\
+    s_state (net_sock st SA) = Established /\ s_state (net_sock st SB) = SynReceived /\
+    reliable_schedule 5000 5000 st (sqc_evsH ++ sqc_evsQ ++ NClose SA :: sqc_evs1 ++ NClose SB :: sqc_evs2) /\
+    net_run st sqc_evsH = Ok stD /\
+    net_run stD sqc_evsQ = Ok stQ /\ run_all qregime stD sqc_evsQ /\
+    net_run stQ (NClose SA :: sqc_evs1) = Ok st_m /\ net_run st_m (NClose SB :: sqc_evs2) = Ok st' /\
+    (exists h1 h2 sth,
+       sqc_evsH = h1 ++ h2 /\ net_run st h1 = Ok sth /\ net_run sth h2 = Ok stD /\
+       (forall z, s_state (net_sock sth z) = Established) /\
+       net_now sth SA <= Z.max (net_now st SA) (cA st) + max_rto_us + 2 * 5000) /\
+    (exists p1 p2 sta,
+       sqc_evsQ = p1 ++ p2 /\ net_run stD p1 = Ok sta /\ net_run sta p2 = Ok stQ /\
+       una_off (net_get sta SA) = l_len (ep_written (net_get stD SA)) /\
+       read_off (net_get sta SB) = l_len (ep_written (net_get stD SA))) /\
+    (exists pre2 post st_c,
+       sqc_evs2 = pre2 ++ post /\ net_run st_m (NClose SB :: pre2) = Ok st_c /\ net_run st_c post = Ok st' /\
+       both_closed st_c).
+Proof.
+  destruct zcfg_good as (Ga & Gb).
+  apply (sqc_package zcfg_a zcfg_b sqc_pre sqc_evsH sqc_evsQ sqc_evs1 sqc_evs2 5000 5000 10000 0 Ga Gb); try exact sqc_check_ok.
   - split; reflexivity.
   - split; reflexivity.
   - cbn. lia.
